@@ -35,7 +35,10 @@ type StructV struct {
 }
 
 type SliceV struct{ Base, Off, Len string }
-type IfaceV struct{ Tag, Pay string }
+type IfaceV struct {
+	Tag, Pay string
+	Dyn      types.Type // static knowledge of the dynamic type (set by MakeInterface), nil when unknown
+}
 type TupleV struct{ V []Val }
 
 // SetV is a spec-only value: a set of keys as an SMT array K->Bool.
@@ -62,6 +65,8 @@ type FuncV struct {
 	Term string // opaque id when symbolic
 	From string // "Type.field" provenance when loaded from a struct field
 	Recv Val    // bound receiver for method values
+	Owner string // object the function value was loaded from (for field contracts: self)
+	OwnerT types.Type
 }
 
 type MapIterV struct {
@@ -403,7 +408,7 @@ func (vc *VC) unflat1(terms []string, t types.Type) (Val, []string) {
 	}
 	switch u := t.Underlying().(type) {
 	case *types.Interface:
-		return IfaceV{terms[0], terms[1]}, terms[2:]
+		return IfaceV{Tag: terms[0], Pay: terms[1]}, terms[2:]
 	case *types.Slice:
 		return SliceV{terms[0], "0", terms[1]}, terms[2:]
 	case *types.Struct:
@@ -505,6 +510,8 @@ func (st *State) allocTerm() string {
 func (st *State) newRef() string {
 	r := st.allocTerm()
 	st.allocOff++
+	// ghost fields of a fresh reference have their default value whatever its type (references are untyped integers)
+	st.vc.initGhostAll(st, r)
 	return r
 }
 
@@ -579,6 +586,32 @@ func (st *State) havocArray(name string) string {
 // refInfo records which arrays hold references so that the allocation
 // invariant (every stored reference is < alloc) can be assumed.
 func (st *State) wellTyped(name, sym, alloc string) {
+	if strings.HasPrefix(name, "GG_") {
+		if sort, ok := st.vc.arrSorts[name]; ok && sort == arrSort(SInt, SInt) {
+			st.vc.counter++
+			o := fmt.Sprintf("o!%d", st.vc.counter)
+			st.assume(fmt.Sprintf("(forall ((%s Int)) (! (=> (>= %s %s) (= (select %s %s) 0)) :pattern ((select %s %s))))", o, o, alloc, sym, o, sym, o))
+		}
+		return
+	}
+	if strings.HasPrefix(name, "G_") {
+		// ghost fields of unallocated references have their default value (ghost state is ours to define;
+		// ghost assignments only ever target allocated objects)
+		if sort, ok := st.vc.arrSorts[name]; ok {
+			es := strings.TrimSuffix(strings.TrimPrefix(string(sort), "(Array Int "), ")")
+			def := zeroOf(Sort(es))
+			if strings.HasPrefix(es, "(Array") {
+				def = "((as const " + es + ") false)"
+				if strings.HasSuffix(es, "Int)") {
+					def = "((as const " + es + ") 0)"
+				}
+			}
+			st.vc.counter++
+			o := fmt.Sprintf("o!%d", st.vc.counter)
+			st.assume(fmt.Sprintf("(forall ((%s Int)) (! (=> (>= %s %s) (= (select %s %s) %s)) :pattern ((select %s %s))))", o, o, alloc, sym, o, def, sym, o))
+		}
+		return
+	}
 	info, ok := st.vc.arrInfo[name]
 	if !ok {
 		return
